@@ -7,6 +7,11 @@
 2. Conformance impl -> spec, total: for every first word the real decoder (recording visitor: handler
    overload + operand values for two second words), Decode<Interpreter> (name, expansion), the public
    Disassembler::NeedExpansion and Parser::Parse(tokens) must agree with TeakDecode (DecodeTrace).
+   The disassembler is asked three times per word -- plain, with an ar/arp view (the annotated form
+   test_verifier uses, view words varying per word), plain again: the plain answers must be equal (no
+   dependence on earlier calls), and the annotated text must be the plain text with every ar/arp slot
+   replaced by what TeakRegs says the slot holds after the view words are written to ar0..arp3 (the
+   bit-field views of C20); a row has slot pieces in its text exactly when the table gives it slot operands.
 3. Execution clause (the interpreter consumes the second word iff the table says so and resumes right behind
    the instruction, in every 64K bank and across the bank boundaries): isa_rec "exp" mode -- every first word
    that takes a second word executed by the real interpreter from random states (pc anywhere in the 18-bit
@@ -30,7 +35,7 @@ def run(ck):
     for i in range(n):
         f = os.path.join(ck.work, 'dec_%02d.ndjson' % i)
         files.append(f)
-        cmds.append('%s --mode %d..%d --out %s' % (ck.bin('decode_dump'), i * step, (i + 1) * step - 1, f))
+        cmds.append('%s --mode %d..%d --seed %d --out %s' % (ck.bin('decode_dump'), i * step, (i + 1) * step - 1, ck.seed, f))
     ck.run_jobs(cmds)
     ck.validate_traces('DecodeTrace', 'Trace_Decode.cfg', files, timeout=1200)
     ck.sample_lines(files[5], 2, skip=100)
